@@ -1274,7 +1274,7 @@ class Emitter:
     def int_pat(self, p):
         if p["k"] == "por": return all(self.int_pat(q) for q in p["alts"])
         if p["k"] == "plit": return p["e"]["k"] in ("num", "bchar", "unary")
-        return True
+        return p["k"] in ("prange", "pwild", "pident")
 
     def int_test(self, v, p):
         k = p["k"]
